@@ -1,6 +1,7 @@
 use crate::engine::{Ctx, Report, R};
 use serde_json::Value;
 
+pub mod c01;
 pub mod c02;
 pub mod c03;
 pub mod c04;
@@ -9,10 +10,14 @@ pub mod c06;
 pub mod c07;
 pub mod c08;
 pub mod c09;
+pub mod c10;
+pub mod c11;
 pub mod c12;
 pub mod c13;
 pub mod c14;
 pub mod c15;
+pub mod c16;
+pub mod c17;
 pub mod c18;
 pub mod c19;
 pub mod c20;
@@ -26,6 +31,7 @@ pub struct Check {
 
 pub fn registry() -> Vec<Check> {
     vec![
+        Check { id: "C01", level: "fault_enumeration", run: c01::run, replay: c01::replay },
         Check { id: "C02", level: "exploration", run: c02::run, replay: c02::replay },
         Check { id: "C03", level: "exploration", run: c03::run, replay: c03::replay },
         Check { id: "C04", level: "exploration", run: c04::run, replay: c04::replay },
@@ -34,10 +40,14 @@ pub fn registry() -> Vec<Check> {
         Check { id: "C07", level: "exploration", run: c07::run, replay: c07::replay },
         Check { id: "C08", level: "exploration", run: c08::run, replay: c08::replay },
         Check { id: "C09", level: "exploration", run: c09::run, replay: c09::replay },
+        Check { id: "C10", level: "exploration", run: c10::run, replay: c10::replay },
+        Check { id: "C11", level: "exploration", run: c11::run, replay: c11::replay },
         Check { id: "C12", level: "exploration", run: c12::run, replay: c12::replay },
         Check { id: "C13", level: "exploration", run: c13::run, replay: c13::replay },
         Check { id: "C14", level: "exploration", run: c14::run, replay: c14::replay },
         Check { id: "C15", level: "exploration", run: c15::run, replay: c15::replay },
+        Check { id: "C16", level: "fault_enumeration", run: c16::run, replay: c16::replay },
+        Check { id: "C17", level: "exploration", run: c17::run, replay: c17::replay },
         Check { id: "C18", level: "exploration", run: c18::run, replay: c18::replay },
         Check { id: "C19", level: "exploration", run: c19::run, replay: c19::replay },
         Check { id: "C20", level: "exploration", run: c20::run, replay: c20::replay },
